@@ -297,6 +297,21 @@ func ruleDupSilent(r *Report) {
 				}
 			})
 		}
+		// an empty batch is exhausted too: `len(blks) == 0` is an accepted reason for success
+		done = append(done, condEdges(fn, func(cond ssa.Value) (bool, bool) {
+			bo, ok := cond.(*ssa.BinOp)
+			if !ok || (bo.Op != token.EQL && bo.Op != token.NEQ) {
+				return false, false
+			}
+			c, isLen := bo.X.(*ssa.Call)
+			if !isLen || cname(c) != "builtin.len" || !isZeroConst(bo.Y) {
+				return false, false
+			}
+			if _, isP := c.Call.Args[0].(*ssa.Parameter); !isP {
+				return false, false
+			}
+			return bo.Op == token.EQL, bo.Op == token.NEQ
+		})...)
 		succ, _ := classifyReturns(fn)
 		for _, ret := range succ {
 			if !isNilConst(retVal(ret, 0)) {
